@@ -1,1 +1,2 @@
-//! harness package hio
+//! harness package hio (shared by C11 and C13)
+pub mod iohelpers;
